@@ -257,7 +257,6 @@ theorem midC_shrink (H : RemHyp c w addrs own' (Y ++ [b])) (HY : RemHyp c w addr
             rw [hUX]; exact hA.txrecs key
           exact e1.trans (h.trans (e3.symm.trans (e2.symm.trans (hA'.txrecs key))))
         · refine Or.inr ⟨h1, ?_⟩
-          have hb' : key.2 ≠ ⟨b.height, b.id⟩ ∨ True := Or.inr trivial
           by_cases hbb : key.2 = ⟨b.height, b.id⟩
           · cases hB : (bookOf c.p own' Y).txrecs key with
             | none => rfl
@@ -332,5 +331,161 @@ theorem midC_shrink (H : RemHyp c w addrs own' (Y ++ [b])) (HY : RemHyp c w addr
     rw [hSub'.syncedTo]; exact hS'.syncedTo
 
 end shrink
+
+-- ------------------------------------------------------------------ the store-level invariant with a floor
+
+/-- the ghost store follows chain `X` with `w` flagged at ghost height `k` -/
+structure GhostX (c : Ctx) (w : Wid) (g : Store) (X : List Block) (k : Nat) : Prop where
+  scan : ScanJS c w g X k
+  flag : AMap.get g.status w = some ⟨none, true⟩
+  allReady : AllReady (ownR c.own w) (readyWallets g c.wallets)
+  nonempty : (readyWallets g c.wallets).isEmpty = false
+  nodup : KeysNodup g.credits
+
+/-- **removal in progress, store level, with a floor `fl`** (the tip height when the first removal step ran): a ghost
+    store follows `X` with `w` flagged at a ghost height `k ≤ fl`, the real store is the ghost minus some records of
+    `w` and satisfies the in-progress invariant relative to the joined book; `X` reaches above the floor -/
+def P2F (c : Ctx) (w : Wid) (addrs : List Addr) (own' : Own) (fl : Nat) (s : Store) (X : List Block) : Prop :=
+  ∃ g k, k ≤ fl ∧ fl < X.length ∧ GhostX c w g X k ∧ Sub addrs g s ∧
+    MidC c w addrs own' s X (joinBookK c w own' X k)
+
+theorem blockRecOf_id {has : TxId × BlockMeta → Bool} {X : List Block} {h : Nat} {b : Block} {bh : BlkId}
+    {txs : List TxId} (hx : X[h]? = some b) (hr : blockRecOf has X h = some (bh, txs)) : bh = b.id := by
+  unfold blockRecOf at hr
+  rw [hx] at hr
+  simp only at hr
+  split at hr
+  · cases hr
+  · injection hr with hr
+    exact (congrArg Prod.fst hr).symm
+
+section floor
+variable {c : Ctx} {w : Wid} {addrs : List Addr} {own' : Own} {fl : Nat}
+
+/-- **disconnecting a tip block ABOVE the floor**: it succeeds on the real store because it does on the ghost store
+    (`disconnectBlock_sim`): everything under that block belongs to the other wallets, on both stores alike -/
+theorem p2f_disc (hS : Static c w addrs own') {Y : List Block} {b : Block} (hV : ChainValid c.own (Y ++ [b]))
+    (hH : HeightsOK (Y ++ [b])) (hkn : ∀ y ∈ Y ++ [b], AMap.get c.node.known y.id = some y) {s : Store}
+    (hfl : fl < Y.length) (hP : P2F c w addrs own' fl s (Y ++ [b])) :
+    ∃ s', disconnectBlock c s b.height = .ok s' ∧ P2F c w addrs own' fl s' Y := by
+  obtain ⟨g, k, hkfl, _, hG, hSub, hM⟩ := hP
+  have hKN := hS.keys
+  have hk : k + 1 ≤ Y.length := by omega
+  have hkX : k + 1 ≤ (Y ++ [b]).length := by rw [List.length_append]; omega
+  have hbh : b.height = Y.length := heightsOK_mid hH
+  have hne : Y ≠ [] := by intro e; rw [e] at hfl; cases hfl
+  have H : RemHyp c w addrs own' (Y ++ [b]) := ⟨hS.minus, hS.managed, hS.ne, hV, hH, hkn⟩
+  have HY : RemHyp c w addrs own' Y := ⟨hS.minus, hS.managed, hS.ne, chainValid_prefix hV, heightsOK_prefix hH,
+    fun y hy => hkn y (List.mem_append_left _ hy)⟩
+  obtain ⟨g', hdg, hS', _, hkeep, hrdy⟩ := MW.Lemmas.ImportJoin.disconnect_scanJS_above' hKN hV hH hne
+    (hkn b (by simp)) hG.scan hk hG.allReady
+  have hMX : MidU c w addrs own' { s with pendCred := [] } (Y ++ [b]) (joinBookK c w own' (Y ++ [b]) k) := hM
+  have hA := ghost_agree H hKN hG.scan
+  have hgetb : (Y ++ [b])[b.height]? = some b := by rw [hbh]; simp
+  have hhigh : ∀ {n : Nat}, n < k + 1 → n ≠ b.height := by intro n hn e; omega
+  -- the records under the tip block agree on the two stores
+  have eq_tx : ∀ id, AMap.get s.txrecs (id, ⟨b.height, b.id⟩) = AMap.get g.txrecs (id, ⟨b.height, b.id⟩) := by
+    intro id
+    rcases hSub.txrecs (id, ⟨b.height, b.id⟩) with h | h
+    · exact h
+    · cases hg : AMap.get g.txrecs (id, ⟨b.height, b.id⟩) with
+      | none => exact h
+      | some loc =>
+        exfalso
+        have hU : (joinBookK c w own' (Y ++ [b]) k).txrecs (id, ⟨b.height, b.id⟩) = some loc := by
+          rw [← hg]; exact (hA.txrecs _).symm
+        rcases hMX.txrecs (id, ⟨b.height, b.id⟩) with h2 | ⟨_, h2⟩
+        · have h2' : AMap.get s.txrecs (id, ⟨b.height, b.id⟩) = _ := h2
+          rw [h, hU] at h2'; cases h2'
+        · exact hhigh (upper_txrec_w H hKN hU h2) rfl
+  have eq_cred : ∀ id i, AMap.get s.credits ⟨id, ⟨b.height, b.id⟩, i⟩ = AMap.get g.credits ⟨id, ⟨b.height, b.id⟩, i⟩ := by
+    intro id i
+    rcases hSub.credits ⟨id, ⟨b.height, b.id⟩, i⟩ with h | ⟨_, cr, h2, h3⟩
+    · exact h
+    · exfalso
+      have hU : (joinBookK c w own' (Y ++ [b]) k).credits ⟨id, ⟨b.height, b.id⟩, i⟩ = some cr := by
+        rw [← h2]; exact (hA.credits _).symm
+      exact hhigh (upper_credit_w H hKN hkX hU (by rw [← H.managed]; exact h3)) rfl
+  have deb_high : ∀ id i d cr, AMap.get g.debits ⟨id, ⟨b.height, b.id⟩, i⟩ = some d →
+      AMap.get g.credits d.2 = some cr → isW c.own w cr.sh = true → False := by
+    intro id i d cr hd hc hw
+    have hU : (joinBookK c w own' (Y ++ [b]) k).debits ⟨id, ⟨b.height, b.id⟩, i⟩ = some d := by
+      rw [← hd]; exact (hA.debits _).symm
+    have hUc : (joinBookK c w own' (Y ++ [b]) k).credits d.2 = some cr := by rw [← hc]; exact (hA.credits _).symm
+    exact hhigh (upper_debit_w H hKN hkX hU hUc hw) rfl
+  have eq_deb : ∀ id i, AMap.get s.debits ⟨id, ⟨b.height, b.id⟩, i⟩ = AMap.get g.debits ⟨id, ⟨b.height, b.id⟩, i⟩ := by
+    intro id i
+    rcases hSub.debits ⟨id, ⟨b.height, b.id⟩, i⟩ with h | h
+    · exact h
+    · cases hg : AMap.get g.debits ⟨id, ⟨b.height, b.id⟩, i⟩ with
+      | none => exact h
+      | some d =>
+        exfalso
+        have hU : (joinBookK c w own' (Y ++ [b]) k).debits ⟨id, ⟨b.height, b.id⟩, i⟩ = some d := by
+          rw [← hg]; exact (hA.debits _).symm
+        rcases hMX.debits ⟨id, ⟨b.height, b.id⟩, i⟩ with h2 | ⟨_, d0, cr, h2, h3, h4⟩
+        · have h2' : AMap.get s.debits ⟨id, ⟨b.height, b.id⟩, i⟩ = _ := h2
+          rw [h, hU] at h2'; cases h2'
+        · rw [hU] at h2
+          injection h2 with h2
+          subst h2
+          exact deb_high id i d cr hg ((hA.credits d.2).trans h3) h4
+  have eq_blk : AMap.get s.blocks b.height = AMap.get g.blocks b.height := by
+    have h1 := hMX.blocks b.height
+    rw [show AMap.get s.blocks b.height = _ from h1, hG.scan.blocks b.height]
+    apply blockRecOf_congr_at rfl
+    intro b0 hb0 oc hoc
+    rw [hgetb] at hb0
+    injection hb0 with hb0
+    subst hb0
+    have hbm : oc.bm = ⟨b.height, b.id⟩ := mem_occsFrom_bm hoc
+    unfold hasRec
+    rw [hbm]
+    show (AMap.get s.txrecs (oc.t.id, ⟨b.height, b.id⟩)).isSome = _
+    rw [eq_tx]
+  have hdeb : ∀ id i d cr, AMap.get g.debits ⟨id, ⟨b.height, b.id⟩, i⟩ = some d → AMap.get g.credits d.2 = some cr →
+      addrs.contains cr.sh = false := by
+    intro id i d cr hd hc
+    cases hcon : addrs.contains cr.sh with
+    | false => rfl
+    | true => exact (deb_high id i d cr hd hc (by rw [← H.managed]; exact hcon)).elim
+  have hh : g.syncedTo = b.height := by
+    have := hG.scan.syncedTo
+    rw [List.length_append] at this
+    simp only [List.length_singleton] at this
+    omega
+  have h0 : b.height ≠ 0 := by omega
+  have hnr : (readyWallets g c.wallets).contains w = false := notReady_of_removed hG.flag rfl
+  have hnr' : (readyWallets g' c.wallets).contains w = false := by rw [hrdy]; exact hnr
+  have hG' : KeysNodup g'.credits → GhostX c w g' Y k := fun hn =>
+    ⟨hS', hkeep w _ hG.flag rfl, by rw [hrdy]; exact hG.allReady, by rw [hrdy]; exact hG.nonempty, hn⟩
+  cases hrec : AMap.get g.blocks b.height with
+  | some rec =>
+    obtain ⟨bh0, txs⟩ := rec
+    have hbh0 : bh0 = b.id := by
+      have := hG.scan.blocks b.height
+      rw [hrec] at this
+      exact blockRecOf_id hgetb this.symm
+    subst hbh0
+    obtain ⟨s', hds, hSub', hns', hng', _, hblk, f_tx, f_blk, f_deb, gf_tx, _, gf_deb, f_cred, gc1, gc2⟩ :=
+      disconnectBlock_sim (c := c) hSub hG.nodup hMX.nodup hh h0 hrec ⟨eq_tx, eq_blk, eq_cred, eq_deb⟩ hdeb hdg
+    have hblk' : AMap.get s'.blocks b.height = none := by
+      rw [hblk, hS'.blocks b.height, hbh]; exact blockRecOf_none (Nat.le_refl _)
+    exact ⟨s', hds, g', k, hkfl, hfl, hG' hng', hSub',
+      midC_shrink H HY hKN hk hbh hG.scan hS' hnr' hng' hM hSub hSub' hns' hblk' f_tx f_blk f_deb f_cred gc1 gc2
+        gf_tx gf_deb⟩
+  | none =>
+    obtain ⟨s', hds, hSub', e1, e2, e3, e4, e5, e6, e7, _⟩ :=
+      disconnectBlock_sim_none (c := c) hSub hh h0 hrec eq_blk hdg
+    have hns' : KeysNodup s'.credits := by rw [e1]; exact hMX.nodup
+    have hng' : KeysNodup g'.credits := by rw [e5]; exact hG.nodup
+    have hblk' : AMap.get s'.blocks b.height = none := by rw [e4, eq_blk, hrec]
+    exact ⟨s', hds, g', k, hkfl, hfl, hG' hng', hSub',
+      midC_shrink (bh := b.id) H HY hKN hk hbh hG.scan hS' hnr' hng' hM hSub hSub' hns' hblk'
+        (fun _ _ => by rw [e3]) (fun _ _ => by rw [e4]) (fun _ _ => by rw [e2]) (fun _ _ => Or.inl (by rw [e1]))
+        (fun _ _ _ h _ => by rw [e5]; exact h) (fun _ _ h _ => by rw [← e5]; exact h)
+        (fun _ _ => by rw [e7]) (fun _ _ => by rw [e6])⟩
+
+end floor
 
 end MW.Lemmas.RemoveInterleave
